@@ -131,6 +131,15 @@ func (g *gen) num(d int) *Node { // int or float expression
 	case 8:
 		return &Node{K: KCall, S: g.pick("ceil", "floor", "round", "abs", "toInt", "toFloat", "toBool", "typeId"), Kids: []*Node{g.num(d - 1)}}
 	case 9:
+		if g.r.Intn(8) == 0 {
+			// a sum of integers is an integer sum: elements beyond 2^53 keep their low bits
+			a := &Node{K: KArr}
+			for i := 2 + g.r.Intn(3); i > 0; i-- {
+				base := []int64{9007199254740993, 4611686018427387905, 36028797018963969, 3, 1, 9007199254740995, 1152921504606846977}[g.r.Intn(7)]
+				a.Kids = append(a.Kids, I(base))
+			}
+			return &Node{K: KMethod, S: "sum", Kids: []*Node{a}}
+		}
 		return &Node{K: KMethod, S: g.pick("sum", "kh", "kl", "len"), Kids: []*Node{g.arr(d - 1)}}
 	case 10:
 		return &Node{K: KIndex, Kids: []*Node{g.arr(d - 1), g.num(0)}}
